@@ -975,6 +975,11 @@ def solve(objfun, x0, h=None, lh=None, prox_uh=None, argsf=(), argsh=(), argspro
         xl = -1e20 * np.ones((n,))  # unconstrained
     if xu is None:
         xu = 1e20 * np.ones((n,))  # unconstrained
+    # Check the shape of the bounds now, before they are scaled or turned into a projection (which can hide or
+    # choke on a wrongly-sized vector); the error is reported with the other input checks below
+    bounds_have_correct_shape = (np.shape(xl) == (n,) and np.shape(xu) == (n,))
+    if not bounds_have_correct_shape:
+        scaling_within_bounds = False
     if npt is None:
         npt = n + 1
     if rhobeg is None:
@@ -1044,6 +1049,9 @@ def solve(objfun, x0, h=None, lh=None, prox_uh=None, argsf=(), argsh=(), argspro
 
     if exit_info is None and np.shape(x0) != (n,):
         exit_info = ExitInformation(EXIT_INPUT_ERROR, "x0 must be a vector")
+
+    if exit_info is None and not bounds_have_correct_shape:
+        exit_info = ExitInformation(EXIT_INPUT_ERROR, "lower and upper bounds must have same shape as x0")
 
     if exit_info is None and np.shape(x0) != np.shape(xl):
         exit_info = ExitInformation(EXIT_INPUT_ERROR, "lower bounds must have same shape as x0")
